@@ -44,6 +44,11 @@ def containers(rng, name, blob, tier):
     for lv in levels:
         forms.append(("gz-l%d" % lv, {name + ".gz": gen.gz_bytes(blob, level=lv)}, name + ".gz"))
     forms.append(("gz-hdr", {name + ".gz": gen.gz_bytes(blob, level=6, mtime=1700000000, name=name)}, name + ".gz"))
+    # the optional header fields of RFC 1952: extra field, comment, header CRC, text flag, alone and all together
+    forms.append(("gz-fextra", {name + ".gz": gen.gz_header_fields(blob, extra=b"AB\x04\x00abcd")}, name + ".gz"))
+    forms.append(("gz-fcomment-fhcrc", {name + ".gz": gen.gz_header_fields(blob, comment=b"rotated by cron", hcrc=True, mtime=1700000000)}, name + ".gz"))
+    forms.append(("gz-all-fields", {name + ".gz": gen.gz_header_fields(blob, name=name, extra=b"zz\x00\x00", comment=b"", hcrc=True, ftext=True,
+                                                                       mtime=1700000000)}, name + ".gz"))
     for lv in ([1, 9] if tier == "quick" else range(1, 10)):
         forms.append(("bz2-l%d" % lv, {name + ".bz2": gen.bz2_bytes(blob, lv)}, name + ".bz2"))
     for preset, check in ([(0, lzma.CHECK_CRC32), (6, lzma.CHECK_CRC64), (6, lzma.CHECK_SHA256)] if tier == "quick" else
@@ -51,6 +56,11 @@ def containers(rng, name, blob, tier):
         # (the SHA-256 integrity check has its own label: the reader does not implement it -- recorded finding)
         forms.append(("%s-p%d-c%d" % ("xzsha256" if check == lzma.CHECK_SHA256 else "xz", preset, check),
                       {name + ".xz": gen.xz_bytes(blob, preset, check)}, name + ".xz"))
+    # one stream, several blocks (xz --block-size), when the xz tool is there
+    for bsz in ([4096] if tier == "quick" else [4096, 65536, 1]):
+        xb = gen.xz_blocks_bytes(blob, max(bsz, 1), "crc64" if bsz != 4096 else "crc32") if len(blob) > 8192 or bsz == 4096 else None
+        if xb:
+            forms.append(("xz-blocks%d" % bsz, {name + ".xz": xb}, name + ".xz"))
     for bid, indep, ck, cs in ([(4, True, False, False), (4, False, True, True)] if tier == "quick" else
                                [(4, True, False, False), (4, False, True, True), (5, True, True, False), (6, False, False, True), (7, True, False, False)]):
         forms.append(("lz4-b%d-%s" % (bid, "i" if indep else "l"), {name + ".lz4": gen.lz4_bytes(blob, bid, indep, ck, cs)}, name + ".lz4"))
